@@ -90,6 +90,55 @@ Third round (other source files, table UNITS; one generated file per unit):
 Conventions (DESIGN 3): Python ints are Z; a shift count that depends on a parameter gets CPython's `ValueError: negative shift
 count` guard, a count built from object state and literals only is taken as non-negative (class invariant 0 <= prefixlen <=
 width); method parameters are ints unless declared otherwise in WHITELIST; every parameter of a module-level function is declared in FUNCS.
+
+SRCE (class FnE, used only by the units of SRCE_UNITS -- the non-constructor functions of netaddr/ip/__init__.py; everything FnE does
+not recognise goes to the base class unchanged; trusted input: SRCE_UNITS, SRCE_TYPES, SRCE_LOCALS, MODULE_FUNCS, the FUEL entry of
+cidr_merge, the preludes Model/SrcPreludeSRCE.v / SrcPreludeMerge.v / SrcPreludeMatch.v / SrcPreludeCmp.v / SrcPreludeViews.v):
+* pysrc_merge_gen.v (C05: IPRange.cidrs, cidr_merge).  A parameter declared `list mitem` is a list of IPNetwork or IPRange objects
+  (Model/Merge.v mitem = MNet net | MRange version start end; `IPNetwork(ip)` of anything else is the constructors' business):
+  `isinstance(x, C)` / `isinstance(x, (C, D))` on such an object is decided where the declared type decides it and is a `match` on
+  the constructor otherwise (inside the arms x is an IPNetwork-valued variable / a refined IPRange operand); `x.attr` for a property
+  both classes have is that match over the two translated properties.  A tuple (int, int, int) or (int, int, int, object) is a
+  Merge.rtuple = Z * Z * Z * option mitem: `t[0]`, `t[1]`, `t[2]` are the projections, `if len(t) == 4:` is `match snd t with
+  Some o => .. | None => ..` and `t[3]` is o inside its first arm.  `l[e]` for a computed int e = py_index (IndexError; a negative
+  index counts from the end), `l[e] = x` = py_setitem (value first, then index), `del l[e]` = py_delitem, `l.extend(m)` = l ++ m,
+  `l.sort()` on range tuples = py_sort_ranges (NOT translated: the hand model Merge.rt_sort).  `a and b` / `a or b` whose later
+  operands can raise = `if a then (do ..; Ok b) else Ok false` (short circuit, in `outcome`).  An IPAddress object passed where the
+  callee declares an IPNetwork = py_net_of_addr (IPNetwork(<IPAddress>): its host network).  `x.m(..)` on an IPNetwork-valued
+  variable or a refined operand = the translated method m of its class.
+* generators (pysrc_subnet_gen.v C11: IPNetwork.subnet; pysrc_iter_gen.v C10: iter_iprange).  `def g(..): <prologue>; while c: <body>;
+  yield e` (one yield, the last statement of the loop, which is the last statement of the function; no loop / continue / return /
+  try inside) is listed twice, as "g:start" and "g:next", and becomes two definitions: src_g_start = the prologue, returning the
+  tuple of the locals the loop reads, in the order of their first read (`Ok None` for a bare `return`: the generator yields
+  nothing); src_g_next <state> = one resumption: `if c then <body>; Ok (Some (e, <state>)) else Ok None`, a `break` = `Ok None`, an
+  exception of the body = Raise.  SrcPreludeSRCE.py_gen_take is list(islice(g, n)) of the two pieces.  State variables are
+  ints, bools, IPNetwork objects or address texts.  A parameter declared `obj` is an IPAddress object (version, value);
+  `IPAddress(x)` of such an x is a copy (the same pair); `x.version`, `x._value`, `int(x)` read it.
+* pysrc_subnet_gen.v also: `self._module.int_to_str(e)` is kept as the integer e it is the text of (type ipstr);
+  `self.__class__('%s/%d' % (a, p), version)` for an IPAddress object or such a text a = py_net_of_cidr_text (NOT translated: the
+  hand model Subnet.net_of_cidr_str of the text round trip; for an IPAddress a of another family: Raise Unsupported); on that new
+  object, which nobody else can see, `x.value += e` / `x.prefixlen = e` call the translated setter of the property
+  (`name = property(lambda self: self._f, <setter>)`) and `x += n` / `x -= n` the translated __iadd__ / __isub__ (record updates);
+  `if count is None: count = <int>` for an `optint` parameter; `a // k ** e` (a positive literal k: the divisor is never 0).
+* pysrc_iter_gen.v / pysrc_match_gen.v: "m:mixin" = the definition of IPListMixin itself for a receiver class that overrides m.
+* pysrc_match_gen.v (C04: the three matching functions): `[IPNetwork(x) for x in xs]` for IPNetwork-valued xs = xs (copies);
+  `sorted(l)` for IPNetwork objects = py_sorted_nets (NOT translated: the hand model Contains.py_sorted over BaseIP.__lt__);
+  `x in y` / `x not in y` for an IPNetwork-valued y = its translated __contains__ on the operand (OAddr .. / ONet ..);
+  an IPAddress object read inside a loop is carried as its pair; a local declared in SRCE_LOCALS as `optnet` starts as None and is
+  assigned IPNetwork objects (option net): `x is not None and <e>` = `match x with Some h => <e with x := h> | None => Ok false end`.
+* pysrc_cmp_gen.v (C12: BaseIP.__eq__ .. __ge__, __hash__, IPRange.sort_key): `try: return <e> / except (AttributeError, ..): return
+  NotImplemented` where <e> reads one `operand` parameter = a match on the operand kind whose three BaseIP arms are <e> -- accepted
+  only if <e> is translated there without anything that can raise, so that the handler is dead -- and whose OOther arm is `Raise
+  Unsupported` (the method answers NotImplemented and Python tries the reflected operation: out of scope).  `t1 <op> t2` for two
+  tuples of ints (results of key() / sort_key()) = py_tuple_<op> (Order.tuple_cmp); `num_bits(e)` imported from netaddr.core =
+  py_num_bits (Order.num_bits; core_num_bits_ok() checks that core.py still says `return int_val.bit_length()`); `hash(t)` = `hash_ t`
+  where hash_ : list Z -> Z becomes a PARAMETER of the generated definition (CPython's tuple hash is not modelled).
+* pysrc_ipviews_gen.v (C15 / C14: IPAddress.bits bin words packed reverse_dns __bytes__ __hex__): `self._module.<f>(..)` for the
+  functions of MODULE_FUNCS = the symbol py_mod_<f> version .. (NOT translated: the hand model of the strategy module's function,
+  Model/Codec.v, by version); `v.to_bytes(n, 'big')` = py_int_to_bytes; `'<text>%x' % e` = py_fmt_hex; a parameter declared `optstr`
+  (None or text) may only be passed on.
+Not translated: iter_unique_ips (nested `for` with `yield`, and no hand model function), the abstract BaseIP.key / sort_key
+(`return NotImplemented`: no model counterpart), IPAddress.__oct__ (no model), the alias __bool__ = __nonzero__.
 """
 import ast
 import os
@@ -231,12 +280,24 @@ SRCE_UNITS = [
      [(c, m, {"other": "operand"}) for c in ("IPAddress", "IPNetwork", "IPRange")
       for m in ("__eq__", "__ne__", "__lt__", "__le__", "__gt__", "__ge__")] +
      [(c, "__hash__", {}) for c in ("IPAddress", "IPNetwork", "IPRange")] + [("IPAddress", "__long__", {})]),
+    # C15 (and C14 for __hex__): the IPAddress accessors that hand the value to a function of the strategy module (MODULE_FUNCS)
+    (IPFILE, "pysrc_ipviews_gen.v", "", " Base.PyStr Model.SrcPreludeSRCE Model.SrcPreludeViews",
+     [("IPAddress", "bits", {"word_sep": "optstr"})] +
+     [("IPAddress", m, {}) for m in ("bin", "words", "packed", "reverse_dns", "__bytes__", "__hex__")]),
 ]
+# functions of the strategy module called as `self._module.<f>(..)`: NOT translated here (netaddr/strategy/ipv4.py, ipv6.py are
+# another unit's); <f> -> (prelude symbol = the hand model of Model/Codec.v by version, parameter types, result type)
+MODULE_FUNCS = {"int_to_bits": ("py_mod_int_to_bits", ("int", "optstr"), "str"), "int_to_bin": ("py_mod_int_to_bin", ("int",), "str"),
+                "int_to_words": ("py_mod_int_to_words", ("int",), "list int"), "int_to_packed": ("py_mod_int_to_packed", ("int",), "list int"),
+                "int_to_arpa": ("py_mod_int_to_arpa", ("int",), "str")}
 UNITS = UNITS + SRCE_UNITS
 FILES = FILES + tuple(u[1] for u in SRCE_UNITS)
 FUEL.update({(None, "cidr_merge", 2): ("len(ranges)", 1)})      # the backward scan runs at most len(ranges) - 1 times
+for _k in (("IPRange", "sort_key"), ("IPListMixin", "__contains__")):      # no longer skipped: units pysrc_cmp_gen.v, pysrc_match_gen.v
+    SKIP.pop(_k, None)
 SRCE_TYPES = {"mitem": "mitem", "rtup": "rtuple", "ipstr": "Z", "optnet": "(option net)",
-              "objv": "(Z * Z)", "hashfn": "(list Z -> Z)"}   # new value types -> their Coq types (objv: an IPAddress object carried through a loop as its pair)
+              "objv": "(Z * Z)", "hashfn": "(list Z -> Z)",
+              "optstr": "(option string)"}   # new value types -> their Coq types (objv: an IPAddress object carried through a loop as its pair)
 # declared types of locals that start as None: (receiver, function, local) -> type (`optnet`: None or an IPNetwork object)
 SRCE_LOCALS = {(None, "smallest_matching_cidr", "match"): "optnet", (None, "largest_matching_cidr", "match"): "optnet"}
 
@@ -1978,7 +2039,8 @@ class Fn:
 COQTY.update(SRCE_TYPES)
 RESERVED |= set("mitem MNet MRange rtuple py_index py_setitem py_delitem py_net_of_addr py_net_of_cidr_text py_gen_take "
                 "py_sort_ranges nth_o set_nth del_nth py_norm_index py_sorted_nets py_num_bits hash_ "
-                "py_tuple_eq py_tuple_ne py_tuple_lt py_tuple_le py_tuple_gt py_tuple_ge".split())
+                "py_tuple_eq py_tuple_ne py_tuple_lt py_tuple_le py_tuple_gt py_tuple_ge py_int_to_bytes py_fmt_hex "
+                "py_mod_int_to_bits py_mod_int_to_bin py_mod_int_to_words py_mod_int_to_packed py_mod_int_to_arpa".split())
 TUPLE_CMP = {ast.Eq: "py_tuple_eq", ast.NotEq: "py_tuple_ne", ast.Lt: "py_tuple_lt", ast.LtE: "py_tuple_le", ast.Gt: "py_tuple_gt",
              ast.GtE: "py_tuple_ge"}
 
@@ -2207,6 +2269,10 @@ class FnE(Fn):
                     raise
                 self.restore(snap)
                 return self.boolop_sc(node, env)
+        if (isinstance(node, ast.BinOp) and isinstance(node.op, ast.Mod) and isinstance(node.left, ast.Constant)
+                and isinstance(node.left.value, str) and re.fullmatch(r"[ -$&-~]*%x", node.left.value) and '"' not in node.left.value):
+            e = self.int_(node.right, env)       # '<text>%x' % e for an int e: the text followed by e in lower-case hexadecimal
+            return ("out", "str", "(py_fmt_hex \"%s\"%%string %s)" % (node.left.value[:-2], e))
         if (isinstance(node, ast.BinOp) and isinstance(node.op, ast.FloorDiv) and isinstance(node.right, ast.BinOp)
                 and isinstance(node.right.op, ast.Pow) and (const_int(node.right.left) or 0) > 0):
             a, b = self.int_(node.left, env), self.int_(node.right, env)     # a // k ** e: the divisor is never 0 (e >= 0 is guarded by the ** arm)
@@ -2277,6 +2343,17 @@ class FnE(Fn):
 
     def call(self, node, env):
         f = node.func
+        if (isinstance(f, ast.Attribute) and f.attr in MODULE_FUNCS and dotted(f.value) == "self._module" and not node.keywords
+                and "self._module.version" in self.attrs and "self" not in env):
+            sym, ptys, rty = MODULE_FUNCS[f.attr]        # self._module.<f>(..): the strategy module's function, a prelude symbol by version
+            args = [self.ex(x, env) for x in node.args]
+            if len(args) != len(ptys) or any(ty != pty for (ty, _), pty in zip(args, ptys)):
+                bad(node, "argument list of self._module.%s" % f.attr)
+            return ("out", parse_type(rty), "(%s)" % " ".join([sym, self.attrs["self._module.version"][1]] + [t for _, t in args]))
+        if (isinstance(f, ast.Attribute) and f.attr == "to_bytes" and len(node.args) == 2 and not node.keywords
+                and isinstance(node.args[1], ast.Constant) and node.args[1].value == "big"):
+            v, n = self.int_(f.value, env), self.int_(node.args[0], env)     # int.to_bytes(n, 'big'): OverflowError when it does not fit
+            return ("out", ("list", Cell("int")), "(py_int_to_bytes %s %s)" % (v, n))
         if (isinstance(f, ast.Name) and f.id == "num_bits" and f.id not in env and self.mod.imports.get("num_bits") == "netaddr.core.num_bits"
                 and len(node.args) == 1 and not node.keywords and core_num_bits_ok()):
             return ("int", "(py_num_bits %s)" % self.int_(node.args[0], env))      # int.bit_length: SrcPreludeCmp.py_num_bits
